@@ -235,6 +235,14 @@ gen_transform (gen_t *g, int slot, int tclass)
 	m[2] = rng_range (R, -20 * 65536, 60 * 65536); m[5] = rng_range (R, -20 * 65536, 60 * 65536);
 	m[6] = rng_range (R, -600, 600); m[7] = rng_range (R, -600, 600);
 	m[8] = rng_chance (R, 1, 2) ? 65536 : rng_range (R, 32768, 3 * 65536);
+	/* sparse bottom rows are projective too: (0,0,w), (0,p,1), (p,0,1) */
+	switch (rng_n (R, 6))
+	{
+	case 0: m[6] = m[7] = 0; if (m[8] == 65536) m[8] = 2 * 65536; break;
+	case 1: m[6] = 0; m[8] = 65536; if (!m[7]) m[7] = 150; break;
+	case 2: m[7] = 0; m[8] = 65536; if (!m[6]) m[6] = -150; break;
+	default: break;
+	}
 	break;
     default: break;
     }
@@ -298,6 +306,7 @@ gen_misc_prop (gen_t *g, int slot)
     if (kind == MOP_SET_DITHER) a[n++] = rng_n (R, 6);
     else if (kind == MOP_SET_DITHER_OFFSET) { a[n++] = rng_range (R, -9, 9); a[n++] = rng_range (R, -9, 9); }
     else if (kind == MOP_SET_INDEXED) a[n++] = rng_n (R, 3);
+    else if (kind == MOP_SET_ACCESSORS) a[n++] = rng_n (R, 4);      /* none / both / read-only / both */
     else a[n++] = rng_n (R, 2);
     sc_addv (g->sc, kind, n, a);
 }
@@ -368,8 +377,13 @@ gen_fill_boxes (gen_t *g, int dst, int rects, int inside_only)
     int dw = g->s[dst].w, dh = g->s[dst].h;
     a[n++] = rng_chance (R, 1, 2) ? (rng_chance (R, 1, 2) ? 1 : 3) : (int64_t)rng_n (R, sim_n_ops);
     a[n++] = dst;
-    a[n++] = rng_chance (R, 1, 2) ? 65535 : rng_chance (R, 1, 4) ? 0 : rng_range (R, 0, 65535);
-    a[n++] = rng_range (R, 0, 65535); a[n++] = rng_range (R, 0, 65535); a[n++] = rng_range (R, 0, 65535);
+    {
+	/* 16-bit channel values around the places where 8-bit and 16-bit views of a colour part ways */
+	static const int64_t edge[] = { 65535, 65535, 65535, 0, 0xff00, 0xfffe, 0xff7f, 0xff80, 0x00ff, 0x0100, 0x8000, 0x7fff };
+	int q;
+	for (q = 0; q < 4; q++)
+	    a[n++] = rng_chance (R, 2, 3) ? edge[rng_n (R, sizeof edge / sizeof edge[0])] : rng_range (R, 0, 65535);
+    }
     a[n++] = cnt;
     for (i = 0; i < cnt; i++)
     {
